@@ -153,6 +153,46 @@ theorem from_file_ok_sizes (dec : Bytes → Option Bytes) (file : Bytes) (hint :
                   cases h
                   exact Classical.byContradiction fun hne => hps hne
 
+/-- (4b) `from_file` never accepts a header for a file of another size: whatever the file, the hint and the claimed pack size,
+a blob list whose computed pack size differs from the size given is not returned (contrapositive of `from_file_ok_sizes`; the
+size comparison is `≠`, not `>`: seed C04-7 accepted every file LARGER than its header describes). -/
+theorem from_file_rejects_other_size (dec : Bytes → Option Bytes) (file : Bytes) (hint : Option Nat) (ps : Nat)
+    (bl : List IndexBlob) (hne : packSize bl ≠ ps) : fromFile dec file hint ps ≠ .ok bl :=
+  fun h => hne (from_file_ok_sizes dec file hint ps bl h)
+
+/-- (4c) A pack EXTENDED AT ITS FRONT is refused.  The header sits at the END of the pack and records only the blob LENGTHS
+(offsets are implied, back to back from 0), so after putting ANY non-empty prefix in front of a pack the packer wrote, the file
+still ends in the intact, authenticated header — `from_file`, called with the new true file size (as `repair index` and
+`to_indexed_checked` call it), finds and decrypts that header for EVERY size hint, and the ONLY thing that refuses the file is
+the size comparison: the result is the pack-size error, never a blob list (whose offsets would all be wrong for this file).
+Prefix = junk, a copy of the first blob, the whole pack (`pre = file`: the pack duplicated) … all covered.  Replayed on the
+real `from_file` by the `F<k>` / `FB` / `FP` reads of the `pack` / `packn` channel; end to end by `c04 tamper front`. -/
+theorem from_file_rejects_front_extended (enc : Bytes → Bytes) (dec : Bytes → Option Bytes) (ae : AE enc dec)
+    (t : BlobType) (adds : List (Bytes × Nat × Option Nat))
+    (hwf : ∀ b ∈ ((Packer.new t).run adds).blobs, WFBlob b) (pre : Bytes) (hpre : pre ≠ [])
+    (hfit : (pre ++ (((Packer.new t).run adds).finish enc).1).length < 4294967296) (hint : Option Nat) :
+    fromFile dec (pre ++ (((Packer.new t).run adds).finish enc).1) hint (pre ++ (((Packer.new t).run adds).finish enc).1).length
+      = .error .packSize := by
+  have hinv := packer_offsets_cumulative t adds
+  rw [List.length_append, finish_length enc ae.len _ hinv] at hfit ⊢
+  exact fromFile_front_extended enc dec ae _ hinv hwf pre hpre hfit hint
+
+/-- (4d) the pack duplicated (`file ++ file`) is the front extension by the whole pack -/
+theorem from_file_rejects_duplicated_pack (enc : Bytes → Bytes) (dec : Bytes → Option Bytes) (ae : AE enc dec)
+    (t : BlobType) (adds : List (Bytes × Nat × Option Nat))
+    (hwf : ∀ b ∈ ((Packer.new t).run adds).blobs, WFBlob b)
+    (hfit : 2 * packSize ((Packer.new t).run adds).blobs < 4294967296) (hint : Option Nat) :
+    let file := (((Packer.new t).run adds).finish enc).1
+    fromFile dec (file ++ file) hint (file ++ file).length = .error .packSize := by
+  intro file
+  have hinv := packer_offsets_cumulative t adds
+  have hl : file.length = packSize ((Packer.new t).run adds).blobs := finish_length enc ae.len _ hinv
+  have hpos : 0 < packSize ((Packer.new t).run adds).blobs := by
+    rw [packSize_eq]; simp only [Rustic.Gen.PACK_COMP_OVERHEAD, Rustic.Gen.PACK_LENGTH_LEN]; omega
+  apply from_file_rejects_front_extended enc dec ae t adds hwf file
+  · intro h0; rw [h0] at hl; simp at hl; omega
+  · rw [List.length_append, hl]; omega
+
 /-- (5) Rebuilding the index from the pack headers gives the same lookups: if the index listed exactly the
 packs (in any order), and the rebuilt index lists for each pack what `from_file` reads from it (with any size
 hint), then presence, lookup success and totals agree for every mode, type and id — whichever sorted
@@ -386,6 +426,18 @@ example : (fromFile exDec (((Packer.new .data).run exAdds).finish exEnc).1 (some
     some [⟨7, .data, ⟨0, 3, none⟩⟩, ⟨300, .data, ⟨3, 5, some 77⟩⟩] := by decide
 set_option maxRecDepth 10000 in
 example : (fromFile exDec (((Packer.new .data).run exAdds).finish exEnc).1 none 121).toOption = none := by decide
+/-- is the verdict the pack-size error? -/
+def isPackSizeErr (r : Except FileErr (List IndexBlob)) : Bool :=
+  match r with
+  | .error .packSize => true
+  | _ => false
+
+set_option maxRecDepth 10000 in
+/-- the same toy pack with one junk byte, with a copy of its first blob, and with itself in front: refused (pack-size error) -/
+example : isPackSizeErr (fromFile exDec ([9] ++ (((Packer.new .data).run exAdds).finish exEnc).1) none 123) = true ∧
+    isPackSizeErr (fromFile exDec ([1, 2, 3] ++ (((Packer.new .data).run exAdds).finish exEnc).1) (some 110) 125) = true ∧
+    isPackSizeErr (fromFile exDec ((((Packer.new .data).run exAdds).finish exEnc).1 ++ (((Packer.new .data).run exAdds).finish exEnc).1)
+      none 244) = true := by decide
 example : fromBinary (toBinary [⟨5, .tree, ⟨99, 40, none⟩⟩, ⟨6, .data, ⟨7, 2, some 9⟩⟩]) =
     some [⟨5, .tree, ⟨0, 40, none⟩⟩, ⟨6, .data, ⟨40, 2, some 9⟩⟩] := by decide
 /-- truncated entry, unknown magic, `len_data = 0` -/
